@@ -212,7 +212,12 @@ def _py(v):
 
 
 def update_ctx(ctx, props, inherit=True):
-    es, nbits, rm = ctx if inherit else (11, 64, 'RNE')
+    if inherit is True:
+        es, nbits, rm = ctx
+    elif inherit == 'round-only':
+        es, nbits, rm = 11, 64, ctx[2]
+    else:
+        es, nbits, rm = 11, 64, 'RNE'
     if 'precision' in props:
         p = _py(props['precision'])
         if isinstance(p, list):
@@ -295,7 +300,8 @@ class RefEval:
         if isinstance(e, fpc.Decnum):
             return _one(oracle_round.expect(model(*ctx), Fraction(str(e.value))))
         if isinstance(e, fpc.Ctx):
-            return self.ev(e.body, env, update_ctx(ctx, e.props, inherit=self.alt != 'annotation-no-inherit'))
+            inherit = {'annotation-no-inherit': False, 'annotation-no-inherit/precision': 'round-only'}.get(self.alt, True)
+            return self.ev(e.body, env, update_ctx(ctx, e.props, inherit=inherit))
         if isinstance(e, fpc.If):
             return self.ev(e.then_body if self.ev(e.cond, env, ctx) else e.else_body, env, ctx)
         if isinstance(e, fpc.Let):
@@ -367,4 +373,4 @@ def ref_eval(core, args, alt=None):
         return ('none', type(e).__name__)
 
 
-ALTS = ['let-sequential', 'loop-sequential', 'annotation-no-inherit']
+ALTS = ['let-sequential', 'loop-sequential', 'annotation-no-inherit', 'annotation-no-inherit/precision']
